@@ -326,7 +326,7 @@ PositionalStep(c, st, tok, hasNext, next) ==
       missingPos == Set(c, "allow_missing_positional") /\ secondToLast /\ ~st.trailing
       containsLast == \E i \in 1..Len(c.args) : c.args[i].last
       skipCurrent == IF hasNext
-                     THEN (IF cur0 # 0 THEN IsNewArg(c, next, c.args[cur0]) \/ PossibleSubcommand(c, next, st.valid).some ELSE TRUE)
+                     THEN (IF cur0 # 0 THEN ~st.trailing /\ (IsNewArg(c, next, c.args[cur0]) \/ PossibleSubcommand(c, next, st.valid).some) ELSE TRUE)
                      ELSE TRUE
       pos == IF (lowIndexMults \/ missingPos) /\ ~isTerminated THEN (IF skipCurrent THEN pos0 + 1 ELSE pos0)
              ELSE IF st.trailing /\ (Set(c, "allow_missing_positional") \/ containsLast) THEN pc
